@@ -424,7 +424,8 @@ def extract_pflow(trace, sc, ops_obs):
     pids = {}
 
     def pid_of(opi, op):
-        key = (opi if not (sc.get('same_func') and sc.get('func_kind') not in ('partial', 'partial_kw')) else 'same', bool(op.get('init')), bool(op.get('exit')), op.get('worker_lifespan'),
+        key = (('g', op['func_group']) if op.get('func_group') is not None else
+               opi if not (sc.get('same_func') and sc.get('func_kind') not in ('partial', 'partial_kw')) else 'same', bool(op.get('init')), bool(op.get('exit')), op.get('worker_lifespan'),
                bool(op.get('progress_bar')), op.get('task_timeout'), op.get('worker_init_timeout'), op.get('worker_exit_timeout'))
         return pids.setdefault(key, len(pids))
     starts = {}
@@ -978,6 +979,13 @@ def _run(sc, S, obs):
                 # the calls' partials differ in a KEYWORD argument only
                 return functools.partial(stable['pf'][3], tag=opi), stable['pf'][1], stable['pf'][2]
             return functools.partial(stable['pf'][0], opi), stable['pf'][1], stable['pf'][2]
+        if op.get('func_group') is not None:
+            # operations of one group share their function objects (the others have their own)
+            cur.update(op=op, opi=opi)
+            gk = ('g', op['func_group'])
+            if gk not in stable:
+                stable[gk] = _mk_funcs(None, None)
+            return stable[gk]
         if sc.get('same_func'):
             cur.update(op=op, opi=opi)
             if 'f' not in stable:
